@@ -1,7 +1,7 @@
 //! Token trees (C16): inputs whose tokens are either plain characters or groups holding an inner
 //! token sequence, supplied as nested slices (`&[TT]`, kind "tree": spans are indices into the
 //! slice being parsed) or through `Input::map` with global gapped spans (kind "treem").
-use crate::build::{Kind, SSpan, P, X};
+use crate::build::{Bxd, Kind, SSpan, P, X};
 use crate::errs::{ErrTy, Tok};
 use chumsky::input::{Input, MappedInput};
 use chumsky::prelude::*;
@@ -119,7 +119,7 @@ impl<'a> Kind<'a> for &'a [TT] {
     const NAME: &'static str = "tree";
     crate::build::by_ref_impl!();
     fn tree_leaf<E: ErrTy<'a, Self>>() -> Result<Boxed<'a, 'a, Self, Self, X<E>>, String> {
-        Ok(select_ref! { TT::Group(xs) => xs.as_slice() }.boxed())
+        Ok(select_ref! { TT::Group(xs) => xs.as_slice() }.bxd())
     }
 }
 
@@ -136,7 +136,7 @@ impl<'a> Kind<'a> for TsInput<'a> {
     const NAME: &'static str = "treem";
     crate::build::by_ref_impl!();
     fn tree_leaf<E: ErrTy<'a, Self>>() -> Result<Boxed<'a, 'a, Self, Self, X<E>>, String> {
-        Ok(select_ref! { TS::Group(xs, eoi) => ts_input(xs.as_slice(), *eoi) }.boxed())
+        Ok(select_ref! { TS::Group(xs, eoi) => ts_input(xs.as_slice(), *eoi) }.bxd())
     }
 }
 
@@ -150,9 +150,9 @@ where
     use crate::build::build;
     Ok(match g {
         G::Tree => I::tree_leaf::<E>()?,
-        G::IThen(x, b) => build(x, env)?.ignore_then(build_b(b, env)?).boxed(),
-        G::ThenI(b, x) => build_b(b, env)?.then_ignore(build(x, env)?).boxed(),
-        G::Or(b1, b2) => build_b(b1, env)?.or(build_b(b2, env)?).boxed(),
+        G::IThen(x, b) => build(x, env)?.ignore_then(build_b(b, env)?).bxd(),
+        G::ThenI(b, x) => build_b(b, env)?.then_ignore(build(x, env)?).bxd(),
+        G::Or(b1, b2) => build_b(b1, env)?.or(build_b(b2, env)?).bxd(),
         other => return Err(format!("not an inner-input parser: {other:?}")),
     })
 }
@@ -162,5 +162,5 @@ where
     I: Kind<'a>,
     E: ErrTy<'a, I>,
 {
-    a.nested_in(b).boxed()
+    a.nested_in(b).bxd()
 }
